@@ -109,7 +109,7 @@ class Plan:
             else:
                 self.ops[(f["proc"], int(f["n"]))] = f
 
-    STICKY_KINDS = ("open-w", "write", "flush", "close", "copy-open", "copy-data", "fsync", "truncate", "mkdir")
+    STICKY_KINDS = ("open-w", "write", "write-raw", "flush", "close", "copy-open", "copy-data", "fsync", "truncate", "mkdir")
 
     def lookup(self, proc, n, kind):
         f = self.ops.get((proc, n))
